@@ -101,16 +101,16 @@ def main(run):
             ans, m = run.check(ctx.pc + [z3.BoolVal(not ok)], "fault-is-reported", want=want)
             if ans == "sat":
                 pending.append((label, ctx, out, m, spec, "unreported"))
-            elif stats["faulted"] % (7 if run.tier == "quick" else 1) == 0:
+            elif stats["faulted"] % (7 if run.tier == "quick" else 29) == 0:
                 ans, m = run.check(ctx.pc, "witness", want=want)
                 if ans == "sat":
                     pending.append((label, ctx, out, m, spec, None))
     run.extra["fault_stats"] = {"faulted": stats["faulted"], "unfaulted": stats["unfaulted"]}
     run.extra["fault_positions"] = stats["positions"]
-    if run.tier == "quick":
-        cands = [p for p in pending if p[5] is not None]
-        wit = [p for p in pending if p[5] is None]
-        pending = cands + wit[::max(1, len(wit) // 40)]
+    cands = [p for p in pending if p[5] is not None]
+    wit = [p for p in pending if p[5] is None]
+    # every fault replay is its own process (LD_PRELOAD injector): a bounded sample of witnesses, every candidate
+    pending = cands + wit[::max(1, len(wit) // (40 if run.tier == "quick" else 120))]
     for label, ctx, out, m, spec, sig in pending:
         scn = C01.scenario_of(ctx, m) if label == "request" else C01.writer_scenario(ctx, m)
         if label == "writer":
